@@ -285,6 +285,9 @@ package casketfile
 //@ use casketfile/contracts_verif.go:snippet_names
 //@ func (*parser).begin
 //@   requires p != nil && 0 <= p.cursor && p.cursor < len(p.tokens) && p.block.Tokens != nil
+//@   // a block is parsed into a table and a key list of ITS OWN that start empty (whatever the block before it was: a
+//@   // snippet definition, a block whose only address expanded to nothing, ...): nothing of an earlier block can leak into it
+//@   requires [every_block_starts_empty] len(p.block.Keys) == 0 && forallT(k, string, !has(p.block.Tokens, k))
 //@   ensures [cursor_ok] p.cursor >= -1
 //@   modifies Dispenser.cursor, Dispenser.tokens, ServerBlock.Keys, parser.eof, parser.definedSnippets, MV:map[string][]github.com/tmpim/casket/casketfile.Token, MD:map[string][]github.com/tmpim/casket/casketfile.Token, E:github.com/tmpim/casket/casketfile.Token, ghost:fileLookups
 //@   // parseAll only starts a block after Next found a token: the empty-input return is dead under the precondition, by declaration
